@@ -7,6 +7,7 @@
    Definitions only: the executable model, the case type written by harness/cmd/h08, the
    correspondence check [corr08] and the monitors [mon08] [mon09] [mon10].               *)
 From Verif Require Export Common.
+From Verif Require Import Gen_HookFail.
 From Coq Require Import ZArith List Bool.
 Import ListNotations.
 Open Scope N_scope.
@@ -151,7 +152,21 @@ Definition pass_weights (hooks : list hook) (m : mname) (pred : Z -> bool) (s : 
 
 (* ------------------------------------------------------------------ hook tasks: collector loop *)
 (* runTasksAsHooks: one timer per hook; events are timeouts and BASIC_TASK_TERMINATED *)
+(* HTerm: a BASIC_TASK_TERMINATED report; [nonzero]: its exit code satisfies the failure
+   comparison of runTasksAsHooks (read from the source: Gen_HookFail) *)
 Inductive hev := HTimeout (h : N) | HTerm (h : N) (nonzero : bool) (voluntary : bool).
+
+Definition exit_fails (c : Z) : bool :=
+  match gen_exit_op with
+  | 0 => negb (c =? gen_exit_lit)%Z
+  | 1 => (gen_exit_lit <? c)%Z
+  | 2 => (c <? gen_exit_lit)%Z
+  | 3 => (gen_exit_lit <=? c)%Z
+  | 4 => (c <=? gen_exit_lit)%Z
+  | _ => (c =? gen_exit_lit)%Z
+  end.
+(* does a termination report (exit code, voluntary) count as a failure of the hook task *)
+Definition term_fails (c : Z) (vol : bool) : bool := exit_fails c || (gen_invol_fails && negb vol).
 Inductive loopres := LDone (errs : list N) | LCrash.
 
 Fixpoint remN (x : N) (l : list N) : list N :=
@@ -178,7 +193,7 @@ Fixpoint hook_loop (group timers errs succ : list N) (sched : list hev) : loopre
       else if negb (memN h timers) then hook_loop group timers errs succ r   (* late: ignored *)
       else
         let timers' := remN h timers in
-        let bad := nz || negb vol in
+        let bad := nz || (gen_invol_fails && negb vol) in
         let errs' := if bad then h :: errs else errs in
         let succ' := if bad then succ else h :: succ in
         match timers' with
@@ -189,9 +204,13 @@ Fixpoint hook_loop (group timers errs succ : list N) (sched : list hev) : loopre
   end.
 
 (* scripted outcome of one hook task *)
-Inductive tout := TOk | TExit | TInvol | TTimeout | TLate | TOkSlow | TTrigFail.
+(* TTermX: a prompt termination report with the given exit code, voluntary flag and final Mesos
+   state (0 TASK_FINISHED, 1 TASK_FAILED, 2 TASK_KILLED; not looked at by the code) *)
+Inductive tout := TOk | TExit | TInvol | TTimeout | TLate | TOkSlow | TTrigFail
+                | TTermX (code : Z) (vol : bool) (fin : N).
 Definition tout_code (o : tout) : N :=
-  match o with TOk => 0 | TExit => 1 | TInvol => 2 | TTimeout => 3 | TLate => 4 | TOkSlow => 5 | TTrigFail => 6 end.
+  match o with TOk => 0 | TExit => 1 | TInvol => 2 | TTimeout => 3 | TLate => 4 | TOkSlow => 5 | TTrigFail => 6
+             | TTermX _ _ _ => 7 end.
 Definition tout_eqb (a b : tout) : bool := tout_code a =? tout_code b.
 
 Definition tout_of (touts : list (N * tout)) (h : N) : tout :=
@@ -203,11 +222,12 @@ Definition tout_of (touts : list (N * tout)) (h : N) : tout :=
 Definition sched_of (group : list N) (touts : list (N * tout)) : list hev :=
   let is o h := tout_eqb (tout_of touts h) o in
   flat_map (fun h => match tout_of touts h with
-                     | TOk => [HTerm h false true] | TExit => [HTerm h true true]
-                     | TInvol => [HTerm h false false] | _ => [] end) group
+                     | TOk => [HTerm h (exit_fails 0) true] | TExit => [HTerm h (exit_fails 3) true]
+                     | TInvol => [HTerm h (exit_fails 0) false]
+                     | TTermX c v _ => [HTerm h (exit_fails c) v] | _ => [] end) group
   ++ map HTimeout (filter (fun h => is TTimeout h || is TLate h) group)
-  ++ map (fun h => HTerm h false true) (filter (is TLate) group)
-  ++ map (fun h => HTerm h false true) (filter (is TOkSlow) group).
+  ++ map (fun h => HTerm h (exit_fails 0) true) (filter (is TLate) group)
+  ++ map (fun h => HTerm h (exit_fails 0) true) (filter (is TOkSlow) group).
 
 (* result of running the hook tasks of one weight: failing hook ids, or crash *)
 Definition trig_fails (group : list N) (touts : list (N * tout)) : bool :=
@@ -898,7 +918,10 @@ Definition is_OM_begin (n : stepname) (r : orec) : bool :=
           9 a well-formed trigger expression was not read as name, signed weight (see below)
          10 a call left callsPendingAwait during an operation (taken as collected) although its
             function had not returned by the end of the operation
-         11 a teardown that succeeded did not run a declared DESTROY / after_DESTROY call hook  *)
+         11 a teardown that succeeded did not run a declared DESTROY / after_DESTROY call hook
+         12 ascending weights include the weights at which calls are only awaited: a call whose
+            await point (moment, W) was due in this operation had not returned when a hook triggered
+            at the same moment with a weight > W began                                       *)
 
 Definition op_event (o : op) : option evt :=
   match o_kind o with OEvent e => Some e | OForceError => Some GO_ERROR | _ => None end.
@@ -1019,6 +1042,46 @@ Definition builtin_split_ok (hooks : list hook) (e : evt) (recs : list orec) : b
 Definition first_nonzero (l : list N) : N :=
   fold_left (fun acc c => if acc =? 0 then c else acc) l 0.
 
+(* code 12: every call due at (am, aw) - pending from an earlier operation, or started in this one
+   before that point - and taken out of the pending set (or awaited in a step without error) has
+   returned before any hook triggered at moment am with a larger weight begins *)
+Definition await_then_start_ok (hooks : list hook) (e : evt) (src dst : st) (before recs : list orec) (opi : N)
+           (pend_before pend_after : list (point * (N * N) * bool)) : bool :=
+  let all := before ++ recs in
+  let due_now := flat_map (fun r => match r with
+      | OS h o _ =>
+        if o =? opi then
+          match find_hook hooks h with
+          | Some hk =>
+            match phase_of e src dst (fst (h_trig hk)), phase_of e src dst (fst (h_await hk)) with
+            | Some pt, Some pa => if key_lt (pt, snd (h_trig hk)) (pa, snd (h_await hk)) then [((h, o), hk)] else []
+            | _, _ => []
+            end
+          | None => [] end
+        else []
+      | _ => [] end) recs in
+  let due_before := flat_map (fun p => match find_hook hooks (fst (snd (fst p))) with
+      | Some hk => match phase_of e src dst (fst (h_await hk)) with Some _ => [(snd (fst p), hk)] | None => [] end
+      | None => [] end) pend_before in
+  forallb (fun xd =>
+    let '(x, hk) := xd in
+    let '(am, aw) := h_await hk in
+    if existsb (fun r => match r with OM n' true => stepname_eqb (SMoment am) n' | _ => false end) recs &&
+       existsb (fun p => id_eqb (snd (fst p)) x) pend_after
+    then true else
+    forallb (fun r => match r with
+      | OS h o _ =>
+        if (o =? opi) && negb (id_eqb (h, o) x) then
+          match find_hook hooks h with
+          | Some hb =>
+            if mname_eqb (fst (h_trig hb)) am && (aw <? snd (h_trig hb))%Z
+            then existsb (is_OE x) (prefix_until (is_OS (h, o)) all)
+            else true
+          | None => true
+          end
+        else true
+      | _ => true end) recs) (due_now ++ due_before).
+
 (* code 10: collect-or-cancel accounting.  A call that was pending before the operation or was
    started in it, and is no longer in callsPendingAwait afterwards, has been taken as collected:
    its function must have returned by the end of the operation *)
@@ -1053,6 +1116,7 @@ Fixpoint mon08_ops (hooks : list hook) (ops : list op) (oos : list opobs) (segs 
               (if weight_order_ok hooks e src dst recs then 0 else 2);
               (match oo_res oo with XOk => if steps_ok e src dst recs then 0 else 3 | _ => 0 end);
               (if builtin_split_ok hooks e recs then 0 else 7);
+              (if await_then_start_ok hooks e src dst before recs opi pend (oo_pend oo) then 0 else 12);
               await_code hooks e src dst before recs opi pend (oo_pend oo) ]
         | None => 0
         end
@@ -1117,6 +1181,8 @@ Definition mon08 (c : c08_case) : N :=
             failure at after_<event> replaced it
           9 crash with a hook task that terminates after it timed out while another hook task of
             the same weight is still awaited (nil timer)
+         13 a critical hook task failed (non-zero exit code - negative ones included -, involuntary
+            termination, time-out, trigger failure) but the transition returned no error
          12 a critical call awaited in place at before_<event> / leave_<state> failed, yet a hook
             of a later weight or later moment of that (cancelled) transition, or the task
             transition, was executed afterwards
@@ -1155,7 +1221,10 @@ Definition collected_now (recs : list orec) (opi : N) (pend_before pend_after : 
 Definition task_fail_scripted (hooks : list hook) (o : op) (recs : list orec) (critical : bool) : bool :=
   existsb (fun r => match r with
     | OT hs => existsb (fun h => Bool.eqb (crit_of hooks h) critical &&
-                                 (match tout_of (o_touts o) h with TOk | TOkSlow => false | _ => true end
+                                 (match tout_of (o_touts o) h with
+                                  | TOk | TOkSlow => false
+                                  | TTermX c v _ => negb (c =? 0)%Z || negb v   (* non-zero exit or involuntary *)
+                                  | _ => true end
                                   || existsb (fun h' => tout_eqb (tout_of (o_touts o) h') TTrigFail) hs)) hs
     | _ => false end) recs.
 
@@ -1279,7 +1348,8 @@ Fixpoint mon09_ops (hooks : list hook) (ops_all : list op) (ops : list op) (oos 
                  else if st_eqb (oo_state oo) dst then 0 else 3
                else 0);
               (if count_ok hooks ops_all o recs res then 0 else 5);
-              (if crit_call_failed && negb (res_is_err res) then 6 else 0) ]
+              (if crit_call_failed && negb (res_is_err res) then 6 else 0);
+              (if crit_task_failed && negb (res_is_err res) then 13 else 0) ]
         | None => 0
         end
       | None => 0
